@@ -1,6 +1,7 @@
 //! Verification harness: drives the real crates from /repo and writes ndjson traces that the
 //! TLA+ trace specifications in /verif/spec judge.  Rust only drives and projects; no verdicts.
 mod bq;
+mod crgen;
 mod tok;
 mod tokgen;
 mod utf8;
@@ -18,6 +19,7 @@ fn main() {
     match argv[1].as_str() {
         "bq" => bq::main(&args),
         "tok" => tok::main(&args),
+        "charref" => crgen::main(&args),
         "utf8" => utf8::main_utf8(&args),
         "enc" => utf8::main_enc(&args),
         x => {
